@@ -371,7 +371,8 @@ def l2_run(ctx, op, spec, parents, par, answers=None):
     subset = spec["kind"] == "subset"
     k = spec["k"] if subset else len(spec["lo"])
     degenerate = subset and k == len(spec["cand"])
-    P = f"L2:{op}:" + ("full-set:" if degenerate else "")
+    P = f"L2:{op}:"
+    PX = P + ("full-set:" if degenerate else "")       # exceptions in the degenerate k==n case are their own root cause
     X0 = None if op == SAMP else numpy.array(parents, dtype="int64")
     umenu = par.get("umenu", (0.25, 0.75, 0.0, TOP))
 
@@ -429,7 +430,7 @@ def l2_run(ctx, op, spec, parents, par, answers=None):
                 lo, hi = numpy.array(spec["lo"]), numpy.array(spec["hi"])
                 require(bool(numpy.all(out >= lo) and numpy.all(out <= hi)), P + "out-of-bounds",
                         lambda: f"offspring {out.tolist()} outside [{spec['lo']},{spec['hi']}] from parents {parents}")
-        ok = ctx.guard(oracle, case=case, sig_prefix=P)
+        ok = ctx.guard(oracle, case=case, sig_prefix=PX)
         if ok:
             ctx.traces += 1
             flat = [numpy.asarray(r).tolist() for r in (out if not isinstance(out, numpy.ndarray) else out.reshape(-1, k))]
@@ -720,13 +721,15 @@ def l3_run(ctx, cname, tag, spec, ps, ng, pin):
     finally:
         if real_min is not None:
             mod.minimize = real_min
-    P = f"L3:{cname}:" + ("no-feasible-result:" if seen.get("none") else "") + ("full-set:" if degenerate else "")
+    P = f"L3:{cname}:"
+    # exceptions get their own signature when pymoo reported no feasible individual / in the degenerate k==n case
+    PX = P + ("no-feasible-result:" if seen.get("none") else "") + ("full-set:" if degenerate else "")
 
     def oracle():
         if err is not None:
             raise err
         _l3_oracle(ctx, P, cname, kind, multi, prob, before, spec, soln)
-    if ctx.guard(oracle, case=case, sig_prefix=P):
+    if ctx.guard(oracle, case=case, sig_prefix=PX):
         ctx.traces += 1
     if seen.get("none"):
         ctx.flag("L3:no-feasible-result")
